@@ -224,8 +224,30 @@ def run_exhaustive(law, tier, shard, nshards, findings_open):
     return stats
 
 
+_LIMITED = [False]
+
+
+def _limit_memory():
+    """a runaway allocation in a worker must surface as MemoryError (reported with the case),
+    not as an OOM kill of the worker that would leave the pool waiting"""
+    if _LIMITED[0]:
+        return
+    _LIMITED[0] = True
+    try:
+        import resource
+        gb = float(os.environ.get("VERIF_MEM_GB", "6"))
+        lim = int(gb * 1024 ** 3)
+        soft, hard = resource.getrlimit(resource.RLIMIT_AS)
+        if hard != resource.RLIM_INFINITY:
+            lim = min(lim, hard)
+        resource.setrlimit(resource.RLIMIT_AS, (lim, hard))
+    except Exception:  # noqa
+        pass
+
+
 def _task(args):
     pid, law_name, tier, seed, shard, nshards, kind, open_ids = args
+    _limit_memory()
     try:
         mod = load_property(pid)
         law = [l for l in mod.LAWS if l.name == law_name][0]
@@ -269,10 +291,17 @@ def run_property(pid, tier, seed, only_law=None, jobs=None):
         for t in tasks:
             results.append(_task(t))
     else:
+        import concurrent.futures as cf
         ctx = multiprocessing.get_context("fork")
-        with ctx.Pool(jobs) as pool:
-            for r in pool.imap_unordered(_task, tasks, chunksize=1):
-                results.append(r)
+        with cf.ProcessPoolExecutor(max_workers=jobs, mp_context=ctx) as pool:
+            futs = {pool.submit(_task, t): t for t in tasks}
+            for fut in cf.as_completed(futs):
+                t = futs[fut]
+                try:
+                    results.append(fut.result())
+                except Exception as e:  # noqa  (a worker died: BrokenProcessPool)
+                    results.append((t[1], t[6], t[4], None,
+                                    "worker process died while running this task (%r)" % (e,)))
     merged = collections.OrderedDict()
     errors = []
     for law in mod.LAWS:
